@@ -234,6 +234,7 @@ def run(tier):
                             "metacharacters) submitted through each protocol's own mechanism to a PYG and a CGI echo handler")
     # ---- K: the Coq renderers / readers against the real code (harness/k06.py) ----
     kmism, kerr, kdetails = run_k06(chk, tier)
+    found = found or bool(kdetails.get("oracle_hits"))  # run_k06 carries two implementation-level rules of its own
     if kmism or kerr:
         chk.correspondence_broken("K06 (renderers, directory walk, client-side readers: Model/RenderUrl.v, Model/ClientView.v)",
                                   {"mismatches": kmism[:10], "error": kerr, "counts": kdetails}, found)
